@@ -72,8 +72,9 @@ where
                     break;
                 },
                 Err(err) => {
+                    // A failed request (e.g. create/close/restore that does not apply in the current
+                    // state, or an IO error) must not stop background maintenance for the whole session
                     error!("ObserverWorker unexpected error: {:?}", err);
-                    panic!("ObserverWorker unexpected error: {:?}", err);
                 }
             }
         }
